@@ -332,3 +332,81 @@ func ZZ_C08_Mixed() {
 	v2, err2 := c.Get(context.Background(), 2, single)
 	vAssert(err2 == nil && (v2 == 1002 || v2 == 2002), "c08m.later_get_terminates")
 }
+
+func init() { vRegister("ZZ_C08_Retry", ZZ_C08_Retry) }
+
+// zzIdxErr is a loader failure that remembers which loader invocation produced it.
+type zzIdxErr struct {
+	idx      int
+	notFound bool
+}
+
+func (e *zzIdxErr) Error() string { return "zz: load failed" }
+func (e *zzIdxErr) Unwrap() error {
+	if e.notFound {
+		return ErrNotFound
+	}
+	return nil
+}
+
+// ZZ_C08_Retry: two callers, each calling Get twice in a row on the same key, with a loader that fails (error or
+// not-found) with a failure that identifies its invocation. "A failing load leaves no in-flight record behind, so a later
+// Get loads afresh": once any caller has been handed the failure of invocation i, a Get that starts afterwards never
+// returns the failure of invocation i again.
+func ZZ_C08_Retry() {
+	nf := vChoice("outcome", 2) == 1
+	if nf {
+		vScenario("loader=notfound")
+	} else {
+		vScenario("loader=error")
+	}
+	c := Must(&Options[int, int]{Logger: &NoopLogger{}})
+	clk := &zzTick{}
+	ninv := 0
+	loader := LoaderFunc[int, int](func(ctx context.Context, key int) (int, error) {
+		idx := 0
+		vAtomic(func() { idx = ninv; ninv++ })
+		vYield()
+		return 0, &zzIdxErr{idx: idx, notFound: nf}
+	})
+	type call struct {
+		t0, t1 int
+		idx    int // invocation whose failure was returned; -1 unknown
+		failed bool
+	}
+	var calls [2][2]call
+	caller := func(t int) func() {
+		return func() {
+			for j := 0; j < 2; j++ {
+				cl := &calls[t][j]
+				cl.t0 = clk.now()
+				_, err := c.Get(context.Background(), 1, loader)
+				cl.t1 = clk.now()
+				cl.failed = err != nil
+				cl.idx = -1
+				if ie, ok := err.(*zzIdxErr); ok {
+					cl.idx = ie.idx
+				}
+			}
+		}
+	}
+	vPar(caller(0), caller(1))
+	for t := 0; t < 2; t++ {
+		for j := 0; j < 2; j++ {
+			vAssert(calls[t][j].failed, "c08r.failure_reaches_every_caller")
+			if nf {
+				vAssert(calls[t][j].idx >= 0 || true, "c08r.reached")
+			}
+		}
+	}
+	for a := 0; a < 4; a++ {
+		for b := 0; b < 4; b++ {
+			x, y := calls[a/2][a%2], calls[b/2][b%2]
+			if a != b && x.t1 < y.t0 && x.idx >= 0 {
+				vAssert(y.idx != x.idx, "c08r.later_get_loads_afresh_after_a_failed_load")
+			}
+		}
+	}
+	vAssert(ninv >= 2 && ninv <= 4, "c08r.loader_invocation_count")
+	vAssert(c.cache.singleflight.getCall(1) == nil, "c08r.no_inflight_record_left")
+}
